@@ -38,7 +38,8 @@ PROPS["C13"] = dict(
     title="The metadata store is a deterministic compare-and-set register map",
     design_ref="DESIGN.md section 7 (C13)",
     run_files=["Run/C13Run.v"],
-    engines=[dict(cmd=["c13"], corr="Model.MetaKV.{mupdate,mget,mgetall,mgetallvalues,mlist,mlistdir,msnapshot} <-> kv.LFSM.Update/Lookup/PrepareSnapshot/SaveSnapshot/RecoverFromSnapshot, kv.MapStore")],
+    engines=[dict(cmd=["kvrace"], corr="compare-and-set through the real kv.RaftStore client under racing writers (the read-modify-write loop of table.Manager.incAndGetIDSeq)", timeout=600),
+             dict(cmd=["c13"], corr="Model.MetaKV.{mupdate,mget,mgetall,mgetallvalues,mlist,mlistdir,msnapshot} <-> kv.LFSM.Update/Lookup/PrepareSnapshot/SaveSnapshot/RecoverFromSnapshot, kv.MapStore")],
     level_text="Theorems for all entry sequences: CAS outcome (success iff the supplied version is the key's current one, 0 for an absent key - repaired code; mismatch reports the current pair and leaves the store unchanged), fresh increasing versions over logs with increasing indices, refinement of all lookups to the plain map built by successful updates, exact and sorted glob listings, batching independence, snapshot round trip. Model compared with the real kv.LFSM (incl. its JSON snapshot) on random scenarios; the real kv.RaftStore on a NodeHost (what Set/Delete return, the current pair on a mismatch) and escaped glob patterns against path.Match are checked as well; Go side checks the property oracle after every step (get/exists per key, the whole store, listings and directory listings: no stored child or directory dropped - also directories holding keys only deeper down - nothing invented) and a second replica.",
     level_note="Trusts: Coq kernel; genconst (result codes); correspondence run; path.Match modelled for patterns of literals and '*' only and List/ListDir for clean absolute paths only (all that callers use); JSON snapshot modelled as identity on content (exercised by the harness).",
     technique="Coq proof (refinement of a sorted association list to an abstract CAS map, induction over entry lists) + differential correspondence check against kv.LFSM",
@@ -240,7 +241,8 @@ PROPS["C15"] = dict(
     title="At most one follower node holds a table's replication lease at a time",
     design_ref="DESIGN.md section 7 (C15)",
     run_files=["Run/C15Run.v", "Mutants/LeaseWorkerMutants.v"],
-    engines=[dict(cmd=["c15"], corr="Model.Lease.lexec <-> table.Manager.LeaseTable/ReturnTable over kv.LFSM compare-and-set", timeout=900)],
+    engines=[dict(cmd=["kvrace"], corr="compare-and-set through the real kv.RaftStore client under racing writers (the read-modify-write loop of table.Manager.incAndGetIDSeq)", timeout=600),
+             dict(cmd=["c15"], corr="Model.Lease.lexec <-> table.Manager.LeaseTable/ReturnTable over kv.LFSM compare-and-set", timeout=900)],
     level_text="Theorem for every interleaving (single metadata-store operations of any number of nodes, any lease durations incl. already expired ones, any passage of a global clock): at most one node holds a granted, unreturned, unexpired lease; the invariant is proved for each step; grant condition, one winner among racing requests, return removes only the caller's own lease. The real LeaseTable/ReturnTable run over the real kv.LFSM CAS semantics behind a scheduler that releases one store operation at a time: all interleavings of two calls enumerated plus random 2-3 node schedules, two waiting writes optionally applied by ONE LFSM.Update call (proposals committed together), compared with the model and with a mutual-exclusion oracle; the workers' lease routine on top of it (flag = outcome of the last call; exclusive modulo a missed renewal deadline), with the flag-keeping variant refuted in Mutants/LeaseWorkerMutants.v and real workers run over a partitionable metadata shard.",
     level_note="Trusts: Coq kernel; one global monotone clock (nodes' clocks are assumed synchronised, as the lease design itself assumes); correspondence run; RaftStore.Set/Delete result mapping re-implemented in the harness store (same code shape); the replication worker's `leased` flag (whether a node ACTS on a lease) is modelled in Model/LeaseWorker.v: the flag follows the node's last finished LeaseTable call, two flagged workers coexist only if one is past the end of the lease it last obtained - timeliness of the routine (renewal every interval, lease of four) is real time and only exercised.",
     technique="Coq proof (inductive invariant over a small-step interleaving semantics with a ghost grant map) + scheduler-controlled differential check of table.Manager lease calls",
@@ -252,7 +254,8 @@ PROPS["C14"] = dict(
     title="Table catalogue: unique names, never-reused ids, empty when (re)created",
     design_ref="DESIGN.md section 7 (C14)",
     run_files=["Run/C14Run.v", "Mutants/CatalogueMutants.v"],
-    engines=[dict(cmd=["c14"], corr="Model.Catalogue.{cexec,to_start,to_stop} <-> table.Manager.createTable/incAndGetIDSeq/DeleteTable/GetTables, diffTables", timeout=900)],
+    engines=[dict(cmd=["kvrace"], corr="compare-and-set through the real kv.RaftStore client under racing writers (the read-modify-write loop of table.Manager.incAndGetIDSeq)", timeout=600),
+             dict(cmd=["c14"], corr="Model.Catalogue.{cexec,to_start,to_stop} <-> table.Manager.createTable/incAndGetIDSeq/DeleteTable/GetTables, diffTables", timeout=900)],
     level_text="Theorems for every interleaving of create/delete/restore/list calls (restores incl. streams that break off and retries) of any number of managers at single-store-operation granularity: ids given to created or restored tables are pairwise distinct, every id drawn from the sequence is above every id drawn before (inductive invariant over the id sequence's compare-and-set), a restore never re-uses the recovery id an interrupted attempt left behind (refuted for the re-using variant in Mutants/CatalogueMutants.v), undisturbed it succeeds and switches the table to the new id, an existing name is refused, the three steps of a creation succeed when undisturbed, the second of two racing creations of one name fails, the second of two racing deletions fails and a restore cannot resurrect a record deleted under it (repaired compare-and-set); a catalogue replica caught up by a snapshot agrees with the leader; '.' and '..' are names like any other; listing is exact and its key pattern selects the record of every table whose name is a path segment and nothing deeper (leases, the id sequence; different names have different records - theorems over all names, the key a real createTable writes first and GetTables' answer compared per name), diffTables starts/stops exactly the right shards, per-id isolation of table data. Real managers run over the real kv.LFSM CAS semantics behind a scheduler (all interleavings of call pairs + random schedules, incl. Restore with complete and interrupted streams; two waiting writes optionally applied by ONE LFSM.Update call; every listing compared with the records present at that moment), real diffTables on random inputs (against the model and a set oracle), and a real Manager on a NodeHost for emptiness of recreated tables, isolation, slash and prefix names, and a restore after an interrupted restore (new id, stream content only). API level: a request addressed to one table leaves the stored form of every other table untouched and the key-value API never changes the set of tables (C14_api_*).",
     level_note="Trusts: Coq kernel; genconst (tableIDsRangeStart); table names are path segments (names with '/' are rejected by the repaired code); emptiness of a new table rests on dragonboat giving a fresh shard id a fresh state machine directory (exercised on a real NodeHost, not proved); Restore's catalogue steps are part of the model and run interleaved with the other managers' calls on a real NodeHost (one per case); what the recovery shard then contains is C07's theorem.",
     technique="Coq proof (inductive invariant over an interleaving semantics of store programs, permutation reasoning on pending ids) + scheduler-controlled differential check of table.Manager",
